@@ -66,6 +66,9 @@ mutual
     | .cons _ e rest => by simp [canonParams, canonExpr_idem ctx e, canonParams_idem ctx rest]
 end
 
+theorem canonTo_idem (ctx : Ctx) (t : EvtTo) : canonTo ctx (canonTo ctx t) = canonTo ctx t := by
+  cases t <;> simp [canonTo, canonExpr_idem]
+
 mutual
   theorem canonStmt_idem (ctx : Ctx) : ∀ s : Stmt, canonStmt ctx (canonStmt ctx s) = canonStmt ctx s
     | .assign l r => by simp [canonStmt, canonExpr_idem]
@@ -90,6 +93,9 @@ mutual
     | .if_ _ b el els => by
         simp [canonStmt, canonExpr_idem, canonBlock_idem ctx b, canonElifs_idem ctx el, canonElse_idem ctx els]
     | .invoke _ => by simp [canonStmt, canonExpr_idem]
+    | .genEvt _ _ _ _ => by simp [canonStmt, canonParams_idem, canonTo_idem]
+    | .createEvt _ _ _ _ _ => by simp [canonStmt, canonParams_idem, canonTo_idem]
+    | .genPre _ => by simp [canonStmt, canonExpr_idem]
   theorem canonBlock_idem (ctx : Ctx) : ∀ b : Block, canonBlock ctx (canonBlock ctx b) = canonBlock ctx b
     | .nil => by simp [canonBlock]
     | .cons s rest => by simp [canonBlock, canonStmt_idem ctx s, canonBlock_idem ctx rest]
